@@ -394,6 +394,19 @@ def norm_cases(draw, tier, size=None):
     return {"A": A, "B": B, "Ul": Ul, "Ur": Ur, "pa": pa}
 
 
+def _dia_with_padding(P):
+    """DIA storage of the real matrix P whose data array carries junk in the positions that lie outside the matrix (as
+    spdiags / dia_matrix((data, offsets)) built from full-length diagonal vectors leave it): the junk is not part of
+    the matrix and no operation may read it."""
+    M = sp.dia_matrix(P)
+    if M.data.size == 0:
+        return M
+    data = M.data.astype(float).copy()
+    rows = np.arange(data.shape[1])[None, :] - M.offsets[:, None]
+    data[(rows < 0) | (rows >= P.shape[0])] = 7.0
+    return sp.dia_matrix((data, M.offsets), shape=P.shape)
+
+
 def check_norm(case):
     out = Out()
     u = L.utils
@@ -416,6 +429,13 @@ def check_norm(case):
                 out.le(f"quat_frobenius_norm({name}):invariant under ^H", abs(float(rh) - r), 2 * rel * exact)
     if len(vals) == 2:
         out.le("quat_frobenius_norm:dense == sparse", abs(vals["dense"] - vals["sparse"]), 2 * rel * exact)
+    # component form (the Krylov solver's norm) on dense planes and on scipy planes in CSR / DIA-with-padding storage
+    for pname, mkp in (("dense planes", lambda P: np.ascontiguousarray(P)), ("CSR planes", sp.csr_matrix),
+                       ("DIA planes with padding", _dia_with_padding)):
+        okp, rp = out.call(f"normQsparse({pname})", lambda mk_=mkp: u.normQsparse(*[mk_(A[..., c]) for c in range(4)]))
+        if okp:
+            out.le(f"normQsparse({pname}):definition", abs(float(rp) - exact), rel * exact + 1e-300 * (exact == 0),
+                   f"got {float(rp)!r} exact {exact!r}")
     # a norm is asked for, THEN the same object is scaled / conjugate-transposed and asked again (derived objects must
     # not inherit anything that the operation invalidates); both storage formats
     for name, mk in (("dense", Q), ("sparse", S)):
